@@ -1095,3 +1095,30 @@ pub fn gen_sqlive(seed: u64, count: usize) -> Vec<String> {
     }
     out
 }
+
+/// DSE: a store, a barrier, a second store at the same *relative* offset, then a dump of the
+/// neighbourhood.  The bytecode generator's dead-store and zeroing-move passes must treat every
+/// pointer-moving or branching instruction as a barrier; this family places both stores around each
+/// kind of barrier (scans that really move, plain moves, loops, nested clears) for each small offset,
+/// with constant and input-dependent stores.  Deterministic (no seed), 128 programs.
+pub fn gen_dse() -> Vec<String> {
+    let prefix = "<<++>+++>+>++++>+++++<<";
+    let at = |k: i32, body: &str| -> String {
+        let (mv, back) = if k > 0 { (">".repeat(k as usize), "<".repeat(k as usize)) } else { ("<".repeat((-k) as usize), ">".repeat((-k) as usize)) };
+        format!("{}{}{}", mv, body, back)
+    };
+    let barriers = ["[>]", "[<]", "[>>]", "[<<]", ">", "<<", "[->>+<<]", "[[-]]"];
+    let first = ["[-]+++++++", ","];
+    let second = ["[-]++", ","];
+    let mut out = Vec::new();
+    for s in barriers {
+        for k in [-1, 0, 1, 2] {
+            for a in first {
+                for c in second {
+                    out.push(format!("{}{}{}{}<<.>.>.>.>.", prefix, at(k, a), s, at(k, c)));
+                }
+            }
+        }
+    }
+    out
+}
